@@ -66,21 +66,34 @@ func unHexList(s string) [][]byte {
 
 // ---------------------------------------------------------------- exec
 
+// execW follows the caller-memory discipline of FRAMEWORK.md:
+//   - key / MAC key are handed to the package in arena buffers that are overwritten right after construction
+//     (a cipher that kept a reference instead of a copy would now produce different bytes);
+//   - the IV buffer is NOT overwritten: gcmCipher keeps the caller's slice and increments it in place — that is
+//     what the code does, reported as `wiv=` (the IV buffer's contents after the writes);
+//   - every payload is passed in its own guarded buffer; streamPacketCipher encrypts it in place, the other
+//     writers leave it alone: reported per packet as `p=` (s = unchanged, e = now holds its ciphertext, x = else);
+//   - slack before / behind every buffer must stay untouched: `mut=`;
+//   - results of readPacket are kept (not copied) across later reads and compared at the end: `ralias=`.
 func execW(o hx.Op) string {
 	c, m := o.Str("c"), o.Str("m")
-	key, iv, mkey := o.Hex("key"), o.Hex("iv"), o.Hex("mkey")
 	seq := uint32(o.U64("seq"))
 	payloads := unHexList(o.Str("p"))
-	wc, err := ssh.VerifNewCipher(c, m, key, iv, mkey, seq)
+	ka, ma := hx.NewArena(), hx.NewArena()
+	key, mkey := ka.InOut("key", o.Hex("key")), ka.InOut("mkey", o.Hex("mkey"))
+	iv := ma.InOut("iv", o.Hex("iv"))
+	wc, err := ssh.VerifNewCipherShared(c, m, key, iv, mkey, seq)
 	if err != nil {
 		return "bad-op"
 	}
-	rnd := bytes.NewReader(o.Hex("rnd"))
-	var ws []string
+	ka.Scribble()
+	rnd := bytes.NewReader(ma.In("rnd", o.Hex("rnd")))
+	var ws, pstate []string
 	var stream []byte
 	nw := 0
-	for _, p := range payloads {
-		wire, err := wc.WritePacket(rnd, p)
+	for i, p := range payloads {
+		buf := ma.InOut(fmt.Sprintf("p%d", i), p)
+		wire, err := wc.WritePacketShared(rnd, buf)
 		if err != nil {
 			cls := ssh.VerifPacketErrClass(err)
 			if cls == "eof" {
@@ -89,20 +102,67 @@ func execW(o hx.Op) string {
 			ws = append(ws, "E:"+cls)
 			break
 		}
+		switch {
+		case bytes.Equal(buf, p):
+			pstate = append(pstate, "s")
+		case len(wire) >= 5+len(p) && bytes.Equal(buf, wire[5:5+len(p)]):
+			pstate = append(pstate, "e")
+		default:
+			pstate = append(pstate, "x")
+		}
 		ws = append(ws, hx.Hex(wire))
 		stream = append(stream, wire...)
 		nw++
 	}
-	rc, err := ssh.VerifNewCipher(c, m, key, iv, mkey, seq)
+	wiv := hx.Hex(iv)
+	ra := hx.NewArena()
+	rc, err := ssh.VerifNewCipherShared(c, m, ra.InOut("key", o.Hex("key")), ra.InOut("iv", o.Hex("iv")), ra.InOut("mkey", o.Hex("mkey")), seq)
 	if err != nil {
 		return "bad-op"
 	}
-	rs, rseq := readAll(rc, stream, nw+1, true, seq)
-	w := "-"
+	rs, rseq, ralias := readAllKeep(rc, ma.In("stream", stream), nw+1)
+	w, ps := "-", "-"
 	if len(ws) > 0 {
 		w = strings.Join(ws, ",")
 	}
-	return fmt.Sprintf("w=%s;seq=%d;r=%s;rseq=%d", w, wc.SeqNum(), rs, rseq)
+	if len(pstate) > 0 {
+		ps = strings.Join(pstate, "")
+	}
+	return fmt.Sprintf("w=%s;seq=%d;r=%s;rseq=%d;p=%s;wiv=%s;mut=%s/%s;ralias=%s", w, wc.SeqNum(), rs, rseq, ps, wiv, ka.Check(), ma.Check(), ralias)
+}
+
+// readAllKeep reads through connectionState.readPacket and keeps every returned slice until the end.
+func readAllKeep(rc *ssh.VerifCipher, stream []byte, n int) (string, uint32, string) {
+	br := bytes.NewReader(stream)
+	bufr := bufio.NewReaderSize(br, 4096)
+	var rs []string
+	var kept [][]byte
+	var want []string
+	done := 0
+	for i := 0; i < n; i++ {
+		p, err := rc.ReadPacket(bufr)
+		now := len(stream) - br.Len() - bufr.Buffered()
+		consumed := now - done
+		done = now
+		if err != nil {
+			rs = append(rs, fmt.Sprintf("err:%s/%d", ssh.VerifPacketErrClass(err), consumed))
+			break
+		}
+		kept = append(kept, p)
+		want = append(want, hx.Hex(p))
+		rs = append(rs, fmt.Sprintf("ok:%s/%d", hx.Hex(p), consumed))
+	}
+	var bad []int
+	for i, p := range kept {
+		if hx.Hex(p) != want[i] {
+			bad = append(bad, i)
+		}
+	}
+	ralias := hx.JoinInts(bad)
+	if len(rs) == 0 {
+		return "-", rc.SeqNum(), ralias
+	}
+	return strings.Join(rs, ","), rc.SeqNum(), ralias
 }
 
 // readAll reads up to n packets, stopping at the first error. viaConn: through connectionState.readPacket
